@@ -16,48 +16,61 @@ fn meta_character_set() {
     kani::cover!(c == '-');
 }
 
-#[kani::proof]
-#[kani::unwind(6)]
-fn escape_one_char() {
-    let a: char = kani::any();
-    let mut s = String::new();
-    s.push(a);
-    let e = escape(&s);
-    let borrowed = matches!(e, Cow::Borrowed(_));
-    let mut it = e.chars();
-    if is_meta_character(a) {
-        assert!(it.next() == Some('\\'));
-    }
-    assert!(it.next() == Some(a));
-    assert!(it.next().is_none());
-    // strings without meta-characters are returned unchanged (borrowed)
-    assert!(borrowed == !is_meta_character(a));
-    kani::cover!(is_meta_character(a));
-    kani::cover!(!is_meta_character(a) && a.len_utf8() == 4);
-    std::mem::forget(e);
-    std::mem::forget(s);
+const META: [char; 13] = ['?', '*', '$', ':', '<', '>', '(', ')', '[', ']', '{', '}', ','];
+
+fn any_meta() -> char {
+    let i: usize = kani::any();
+    kani::assume(i < META.len());
+    META[i]
 }
 
+/// A meta-character is escaped with exactly one backslash.
+#[kani::proof]
+#[kani::unwind(6)]
+fn escape_meta_char() {
+    let a = any_meta();
+    let buffer = [a as u8];
+    let input = unsafe { std::str::from_utf8_unchecked(&buffer) };
+    let e = escape(input);
+    let out = e.as_bytes();
+    assert!(matches!(e, Cow::Owned(_)));
+    assert!(out.len() == 2 && out[0] == b'\\' && out[1] == a as u8);
+    kani::cover!(a == ',');
+    std::mem::forget(e);
+}
+
+/// Any other character (all of `char`) is returned unchanged, borrowed from the input.
+#[kani::proof]
+#[kani::unwind(6)]
+fn escape_non_meta_char() {
+    let a: char = kani::any();
+    kani::assume(!is_meta_character(a));
+    let mut buffer = [0u8; 4];
+    let input: &str = a.encode_utf8(&mut buffer);
+    let (at, len) = (input.as_ptr(), input.len());
+    let e = escape(input);
+    assert!(matches!(e, Cow::Borrowed(_)));
+    assert!(e.as_ptr() == at && e.len() == len);
+    kani::cover!(len == 4);
+    kani::cover!(a == '-');
+    std::mem::forget(e);
+}
+
+/// Two arbitrary non-meta characters (all of `char` x `char`): unchanged and borrowed.
 #[kani::proof]
 #[kani::unwind(10)]
-fn escape_two_chars() {
+fn escape_two_non_meta_chars() {
     let a: char = kani::any();
     let b: char = kani::any();
-    let mut s = String::new();
-    s.push(a);
-    s.push(b);
-    let e = escape(&s);
-    let borrowed = matches!(e, Cow::Borrowed(_));
-    let mut it = e.chars();
-    for c in [a, b] {
-        if is_meta_character(c) {
-            assert!(it.next() == Some('\\'));
-        }
-        assert!(it.next() == Some(c));
-    }
-    assert!(it.next().is_none());
-    assert!(borrowed == !(is_meta_character(a) || is_meta_character(b)));
-    kani::cover!(is_meta_character(a) && !is_meta_character(b));
+    kani::assume(!is_meta_character(a) && !is_meta_character(b));
+    let mut buffer = [0u8; 8];
+    let n = a.encode_utf8(&mut buffer[..4]).len();
+    let m = b.encode_utf8(&mut buffer[n..n + 4]).len();
+    let input = unsafe { std::str::from_utf8_unchecked(&buffer[..n + m]) };
+    let (at, len) = (input.as_ptr(), input.len());
+    let e = escape(input);
+    assert!(matches!(e, Cow::Borrowed(_)));
+    assert!(e.as_ptr() == at && e.len() == len);
+    kani::cover!(len == 8);
     std::mem::forget(e);
-    std::mem::forget(s);
 }
